@@ -215,6 +215,27 @@ def body_defs():
         return [["C_DestroyObject s=%d o=%d" % (s0, o)], ["FINDALL s=%d tpl=%s" % (s1, LBL(b"pub-data"))]], ["FINDALL s=%d tpl=" % s1]
     B["destroy-token-object-vs-find"] = b_destroy_token_find
 
+    def b_set_set_token(ctx):
+        s0, s1 = user_sessions(ctx)
+        o = find1(ctx.p, s0, b"priv-key-0")
+        G = tpl([(C.CKA_LABEL, Out(16)), (C.CKA_ID, Out(16))])
+        return [["C_SetAttributeValue s=%d o=%d tpl=%s" % (s0, o, tpl([(C.CKA_LABEL, b"renamed-key")]))], ["C_SetAttributeValue s=%d o=%d tpl=%s" % (s1, o, tpl([(C.CKA_ID, b"new-id")]))]], \
+               ["C_GetAttributeValue s=%d o=%d tpl=%s" % (s0, o, G)]
+    B["set-token-attribute-vs-set-token-attribute"] = b_set_set_token
+
+    def b_inittoken_open(ctx):
+        s0, s1 = user_sessions(ctx)                  # sessions on A keep the library busy; token B has none
+        return [["C_InitToken slot=%d pin=x%s label=x%s" % (Bs(ctx), W.SO_B.hex(), b"B".ljust(32).hex())], ["C_OpenSession slot=%d flags=6" % Bs(ctx), "C_GetSessionInfo s=$0"]], \
+               ["C_GetTokenInfo slot=%d" % Bs(ctx), "C_GetSessionInfo s=$T1.0"]
+    B["inittoken-vs-open-session-same-token"] = b_inittoken_open
+
+    def b_setpin_login(ctx):
+        s0, s1 = user_sessions(ctx, login=False)
+        NEW = b"user-pin-A-new"
+        return [["C_SetPIN s=%d old=x%s new=x%s" % (s0, W.USER_A.hex(), NEW.hex())], ["C_Login s=%d user=1 pin=x%s" % (s1, W.USER_A.hex())]], \
+               ["C_GetSessionInfo s=%d" % s0, "C_Logout s=%d" % s1, "C_Login s=%d user=1 pin=x%s" % (s1, NEW.hex())]
+    B["setpin-vs-login-with-old-pin"] = b_setpin_login
+
     def b_three(ctx):
         s0, s1 = user_sessions(ctx)
         return [["C_OpenSession slot=%d flags=6" % A(ctx)], ["C_CreateObject s=%d tpl=%s" % (s1, tpl(F.template("data", token=False, private=False, label=b"x")))], ["C_GetSessionInfo s=%d" % s0, "FINDALL s=%d tpl=%s" % (s0, LBL(b"x"))]], []
